@@ -53,6 +53,41 @@ Proof.
   intros out sd sd' g H. cbn. intros E. inversion E. contradiction.
 Qed.
 
+(* ------------------------------------------------------------------ several calls on one object *)
+Lemma run_seq : forall p q sd g i j,
+  run (seq p q) sd g i j = run p sd g i j ++ run q sd g (i + seeded_used p sd g i j) (j + global_used p sd g i j).
+Proof.
+  induction p as [|v p IH|s k IH]; intros q sd g i j; cbn [seq run seeded_used global_used app].
+  - rewrite !Nat.add_0_r. reflexivity.
+  - rewrite IH. reflexivity.
+  - destruct s; rewrite IH.
+    + rewrite Nat.add_succ_r. reflexivity.
+    + rewrite Nat.add_succ_r. reflexivity.
+Qed.
+
+Lemma no_global_seq : forall p q, no_global p -> no_global q -> no_global (seq p q).
+Proof.
+  induction p as [|v p IH|s k IH]; intros q Hp Hq; cbn [seq no_global] in *.
+  - exact Hq.
+  - apply IH; assumption.
+  - destruct s; [|contradiction]. intros x. apply IH; [apply Hp | exact Hq].
+Qed.
+
+(* k calls propose what one long call proposes, and neither depends on the global stream *)
+Lemma calls_compose : forall p q, no_global p -> no_global q -> forall sd g g' i j j',
+  run (seq p q) sd g i j = run p sd g' i j' ++ run q sd g' (i + seeded_used p sd g' i j') j'.
+Proof.
+  intros p q Hp Hq sd g g' i j j'. rewrite run_seq.
+  rewrite (global_used_no_global p Hp). rewrite Nat.add_0_r.
+  assert (Hs : forall a b, seeded_used p sd g i a = seeded_used p sd g' i b).
+  { clear q Hq. revert Hp i. induction p as [|v p IH|s k IH]; intros Hp i0 a b; cbn [seeded_used no_global] in *.
+    - reflexivity.
+    - apply IH. exact Hp.
+    - destruct s; [|contradiction]. f_equal. apply IH. apply Hp. }
+  rewrite (Hs j j'). rewrite (run_no_global p Hp sd g g' i j j').
+  rewrite (run_no_global q Hq sd g g' _ j j'). reflexivity.
+Qed.
+
 (* ------------------------------------------------------------------ the instance *)
 Lemma prog_of_no_global : forall out srcs acc, (forall s, In s srcs -> s = SSeeded) -> no_global (prog_of out srcs acc).
 Proof.
@@ -127,6 +162,14 @@ Proof.
   intros w c l Hm Hin. apply (bad_site_breaks w c l prefix_mes_site Hin).
   - unfold is_mes in Hm. destruct (c_search c) eqn:Es; try discriminate. destruct (c_acq c) eqn:Ea; try discriminate.
     unfold reach, owner_ok, key_ok, is_mes, prefix_mes_site. cbn [s_owner s_key]. rewrite Es, Ea. reflexivity.
+  - reflexivity.
+Qed.
+
+Lemma fresh_site_breaks : forall w c l, np_seed c = true -> w_npint_seeded w = false -> site_in fresh_search_site l = true -> sites_ok w c l = false.
+Proof.
+  intros w c l Hn Hw Hin. apply (bad_site_breaks w c l fresh_search_site Hin).
+  - unfold np_seed in Hn. destruct (c_seed c) eqn:Es; try discriminate.
+    unfold reach, owner_ok, key_ok, fresh_search_site. cbn [s_owner s_key]. rewrite Es, Hw. reflexivity.
   - reflexivity.
 Qed.
 
